@@ -29,6 +29,7 @@ type Env struct {
 	bound map[string]*T
 	depth int
 	shim  *State
+	heads map[int]*Env
 }
 
 var untypedInt = types.Typ[types.UntypedInt]
@@ -78,6 +79,18 @@ func (e *Env) evalInt(src string) (t *T, err error) {
 		return nil, fmt.Errorf("not an integer: %q", src)
 	}
 	return tt, nil
+}
+
+func (e *Env) evalIntList(src string) ([]*T, error) {
+	var out []*T
+	for _, part := range splitTop(src, ',') {
+		t, err := e.evalInt(strings.TrimSpace(part))
+		if err != nil {
+			return nil, err
+		}
+		out = append(out, t)
+	}
+	return out, nil
 }
 
 // evalUse instantiates an axiom: use name(args)
@@ -521,6 +534,16 @@ func (e *Env) callExpr(n *ast.CallExpr) (Val, types.Type) {
 		o := *e.old
 		o.bound = e.bound
 		return o.eval(n.Args[0])
+	case "athead":
+		// athead(k, e): value of e at the last visit of the head of loop k
+		k, _ := strconv.Atoi(exprString(n.Args[0]))
+		h := e.heads[k]
+		if h == nil {
+			panic(fmt.Sprintf("athead(%d): loop head not visited", k))
+		}
+		o := *h
+		o.bound = e.bound
+		return o.eval(n.Args[1])
 	case "len":
 		v, t := e.eval(n.Args[0])
 		switch x := v.(type) {
@@ -593,6 +616,15 @@ func (e *Env) callExpr(n *ast.CallExpr) (Val, types.Type) {
 			panic("as: unknown type " + exprString(n.Args[1]))
 		}
 		return e.x.unbox(e.loadState(), v.(*IfaceV), t), t
+	case "asptr":
+		// asptr(x, *T): the reference x viewed as a pointer of that type
+		v, _ := e.eval(n.Args[0])
+		t := e.x.ld.resolveTypeExpr(e.pkg, n.Args[1])
+		pt, ok := t.(*types.Pointer)
+		if !ok {
+			panic("asptr: pointer type expected")
+		}
+		return &PtrV{Kind: PObj, Ref: e.x.scalar(v), Typ: pt.Elem()}, t
 	case "tagof":
 		v, _ := e.eval(n.Args[0])
 		return v.(*IfaceV).Tag, intT
@@ -717,7 +749,8 @@ func (e *Env) callExpr(n *ast.CallExpr) (Val, types.Type) {
 			}
 			return UF("spec!"+name, ls[0].sort, args...), rt
 		}
-		sub := &Env{x: e.x, st: e.st, facts: e.facts, vars: map[string]Val{}, types: map[string]types.Type{}, pkg: e.x.ld.pkgByName[sf.Pkg], old: e.old, isPre: e.isPre, bound: e.bound, depth: e.depth + 1}
+		e.loadState()
+		sub := &Env{x: e.x, st: e.st, facts: e.facts, vars: map[string]Val{}, types: map[string]types.Type{}, pkg: e.x.ld.pkgByName[sf.Pkg], old: e.old, isPre: e.isPre, bound: e.bound, depth: e.depth + 1, heads: e.heads, shim: e.shim}
 		if sub.pkg == nil {
 			sub.pkg = e.pkg
 		}
@@ -804,6 +837,19 @@ func (e *Env) evalModItem(src string) (it ModItem, err error) {
 		it.Kind, it.Ref, it.Owner = "allfields", e.x.ptrRef(v), pt.Elem()
 		if typeKey(pt.Elem()) == "bytes.Buffer" {
 			it.Kind = "cell"
+		}
+		return it, nil
+	}
+	if (strings.HasPrefix(src, "anyslice(") || strings.HasPrefix(src, "anymap(")) && strings.HasSuffix(src, ")") {
+		ts := src[strings.Index(src, "(")+1 : len(src)-1]
+		t := e.x.ld.resolveTypeString(e.pkg.Name(), ts)
+		if t == nil {
+			return it, fmt.Errorf("unknown type %s", ts)
+		}
+		if strings.HasPrefix(src, "anyslice(") {
+			it.Kind, it.ElemT = "anyslice", t
+		} else {
+			it.Kind, it.MapT = "anymap", t
 		}
 		return it, nil
 	}
